@@ -1,10 +1,11 @@
 SPECIFICATION TSpec
 CONSTANTS
-  Classes = {"OwnBare", "OwnBareCase", "OwnFullSelf", "OwnFullOther", "OwnBareSlash", "OwnBareSpace", "Domain", "SuffixLookalike", "PrefixLookalike", "Truncated", "Empty", "Contact", "ContactFull", "OwnAsResource", "Homoglyph"}
+  Classes = {"OwnBare", "OwnBareCase", "OwnFullSelf", "OwnFullOther", "OwnBareSlash", "OwnBareSpace", "Domain", "SuffixLookalike", "PrefixLookalike", "Truncated", "Empty", "Contact", "ContactFull", "OwnAsResource", "Homoglyph", "PreviousOwnBare"}
   Wrappers = {"none", "sent", "received", "sentBody", "recvBody", "privSent", "both", "nestedSent", "nestedRecv", "emptyCarbon", "fwdWrongNs", "msgWrongNs", "fwdOnly", "wrongNs"}
   Inners = {"chatIn", "chatOut", "spoof", "noBody", "error", "rich"}
   Gens = {"v1", "v2"}
   JidCfgs = {"plain", "nores", "mixed"}
+  Hows = {"setJid", "setUserDomain", "assign", "copySetJid"}
   MaxHist = 99
 INVARIANT Done
 CHECK_DEADLOCK FALSE
